@@ -7,7 +7,9 @@ For every case a small screen is saved to a temp `.h5`, `sys.argv` is patched an
     the hold-out function, which cut the single sequential log into the stages that consumed it,
   * `introspection.get_class` (as seen by the CLI module) answered from `batchie.retrospective` directly: the genuine lookup
     imports every batchie module (torch, pyro: ~5 s per process) and class lookup is not part of C11 / C13.
-The saved training / test files are read back with h5py (NOT with `Screen.load_h5`, which refuses a zero-row test screen) and
+The saved training / test files are read back with h5py by dataset name (`Screen.load_h5` refuses a zero-row test screen); that
+raw access is TIE knowledge (HARDENING item 20): any error in it is counted as `layout.unexpected`, reported as a broken tie and the
+file is re-read through `Screen.load_h5` for the oracles (zero-row file of unknown layout: tie only).  The views are
 compared -- rows, ids, mappings, masks -- with `Model/PrepPipeline.lean` run on the same screen, options and recorded log.
 End-to-end oracles are evaluated on the files alone against the raw input description.
 """
@@ -71,6 +73,39 @@ class FileView:
         self.plate_mapping = ([x for _, x in pm], [i for i, _ in pm])
 
 
+class LoadedView:
+    """the same view obtained through the public `Screen.load_h5` (fallback when the raw layout is not the one `FileView` knows)"""
+
+    def __init__(self, fn):
+        from batchie.data import Screen
+        t = Screen.load_h5(fn)
+        self.treatment_names, self.treatment_doses, self.treatment_ids = t.treatment_names, t.treatment_doses, t.treatment_ids
+        self.sample_names, self.sample_ids = t.sample_names, t.sample_ids
+        self.plate_names, self.plate_ids = t.plate_names, t.plate_ids
+        self.observations, self.observation_mask = t.observations, np.asarray(t.observation_mask, dtype=bool)
+        self.treatment_mapping, self.sample_mapping = t.treatment_mapping, t.sample_mapping
+        self.control_treatment_name = t.control_treatment_name
+        self.size = int(t.size)
+        pm = sorted(set((int(i), str(x)) for i, x in zip(self.plate_ids, self.plate_names)))
+        self.plate_mapping = ([x for _, x in pm], [i for i, _ in pm])
+
+
+def read_saved(fn, issues):
+    """HARDENING item 20: the dataset names `FileView` reads are TIE knowledge about the storage layout.  Any error of the raw access is
+    recorded in `issues` (reported as `layout.unexpected` + a broken tie, never as a violation, never escaping) and the file is read
+    through the public `Screen.load_h5` instead; when that fails too (it refuses a zero-row screen) the view is None and the
+    file-based oracles are skipped for the case."""
+    try:
+        return FileView(fn)
+    except Exception as e:
+        issues.append("raw read of %s: %s: %s" % (os.path.basename(fn), type(e).__name__, str(e)[:120]))
+    try:
+        return LoadedView(fn)
+    except Exception as e:
+        issues.append("Screen.load_h5 of %s: %s: %s" % (os.path.basename(fn), type(e).__name__, str(e)[:120]))
+        return None
+
+
 # ------------------------------------------------------------------ cases
 
 def gen_case(rng, combo):
@@ -91,6 +126,12 @@ def gen_case(rng, combo):
         raw["mask"] = msk
     if rng.random() < 0.1:
         raw["obs"] = [0.0 if rng.random() < 0.7 else x for x in raw["obs"]]      # reveal_plates refuses an all-zero plate
+    if raw["arity"] >= 2 and rng.random() < 0.6:
+        P.add_multidose_single_agents(rng, raw)
+    if rng.random() < 0.15:
+        # values a summary / sanity helper on the load path might rewrite (reveal_plates refuses a revealed NaN: behaviour)
+        for i in rng.sample(range(len(raw["obs"])), min(len(raw["obs"]), rng.randint(1, 3))):
+            raw["obs"][i] = rng.choice([float("inf"), float("-inf"), float("nan"), -0.0, 5e-324])
     p = {"init": INITS[ini], "gen": None, "sm": None}
     if GENS[gen] is not None:
         op = GENS[gen][0]
@@ -159,6 +200,8 @@ class PipeOutcome:
         self.pops = []
         self.marks = {}
         self.inp = None
+        self.layout_issues = []
+        self.received = {}   # what each stage of the core RECEIVED from the CLI glue (HARDENING item 18)
 
 
 def argv_of(case, d):
@@ -194,12 +237,24 @@ def execute(case):
     depth = {"n": 0}
     made = {"n": 0}
 
+    def snap_screen(scr):
+        return {"exps": exps(scr), "mask": [bool(b) for b in scr.observation_mask], "plates": [str(x) for x in scr.plate_names]}
+
     def marked(name, fn):
         def w(*a, **k):
             outer = depth["n"] == 0
             depth["n"] += 1
             if outer:
                 o.marks[name] = [len(rec.log), len(proxy.pops), None, None]
+                try:
+                    args = list(a) + list(k.values())
+                    scr = [x for x in args if hasattr(x, "observation_mask") and hasattr(x, "plate_names")]
+                    is_self = bool(a) and not hasattr(a[0], "observation_mask") and hasattr(a[0], "__dict__")
+                    rec_in = {"screen": snap_screen(scr[0]) if scr else None, "rng_is_the_one_generator": any(x is rec for x in args),
+                              "fraction": k.get("fraction"), "params": dict(vars(a[0])) if is_self else {}}
+                    o.received[name] = rec_in
+                except Exception as e:       # the recording must never change the run
+                    o.received[name] = {"error": repr(e)}
             try:
                 return fn(*a, **k)
             finally:
@@ -239,6 +294,15 @@ def execute(case):
         cli.get_prng_from_seed_argument = factory
         cli.introspection.get_class = get_class
         cli.create_plate_balanced_holdout_set_among_masked_plates = marked("holdout", saved[3][2])
+        real_filter = cli.filter_dataset_to_treatments_that_appear_in_at_least_one_combo
+
+        def filter_proxy(screen):
+            o.received["loaded"] = snap_screen(screen)          # what Screen.load_h5 handed to the first stage
+            out = real_filter(screen)
+            o.received["filtered"] = snap_screen(out)           # what every later stage starts from
+            return out
+        saved.append((cli, "filter_dataset_to_treatments_that_appear_in_at_least_one_combo", real_filter))
+        cli.filter_dataset_to_treatments_that_appear_in_at_least_one_combo = filter_proxy
         core.InitialRetrospectivePlateGenerator.generate_and_unmask_initial_plate = marked("init", saved[4][2])
         core.RetrospectivePlateGenerator.generate_plates = marked("gen", saved[5][2])
         core.RetrospectivePlateSmoother.smooth_plates = marked("sm", saved[6][2])
@@ -248,16 +312,28 @@ def execute(case):
             stale = P.same_size_variant(__import__("random").Random(case["npseed"]), case["raw"])
             S.build(stale).save_h5(os.path.join(d, "train.h5"))
             shutil.copyfile(os.path.join(d, "train.h5"), os.path.join(d, "test.h5"))
-        logging.disable(logging.CRITICAL)
-        try:
-            cli.main()
-        except SystemExit as e:      # argparse
-            o.err = RuntimeError("SystemExit %s" % e.code)
-        except Exception as e:       # part of the behaviour: class only
-            o.err = e
+        import contextlib
+        import io
+        if case.get("verbose"):
+            # HARDENING item 19: `--verbose` (configure_logging sets DEBUG and adds a stream handler: stderr is captured) inside the
+            # harness-wide verbose configuration
+            sys.argv = sys.argv + ["--verbose"]
+            ctxs = [common.verbose_logging(), contextlib.redirect_stderr(io.StringIO())]
+        else:
+            logging.disable(logging.CRITICAL)
+            ctxs = []
+        with contextlib.ExitStack() as st:
+            for c in ctxs:
+                st.enter_context(c)
+            try:
+                cli.main()
+            except SystemExit as e:      # argparse
+                o.err = RuntimeError("SystemExit %s" % e.code)
+            except Exception as e:       # part of the behaviour: class only
+                o.err = e
         if o.err is None:
-            o.train = FileView(os.path.join(d, "train.h5"))
-            o.test = FileView(os.path.join(d, "test.h5"))
+            o.train = read_saved(os.path.join(d, "train.h5"), o.layout_issues)
+            o.test = read_saved(os.path.join(d, "test.h5"), o.layout_issues)
             if made["n"] != 1:
                 o.err = RuntimeError("generator built %d times" % made["n"])
     finally:
@@ -326,6 +402,8 @@ def impl_canon(case, o):
     if o.err is not None:
         return S.err_tok(o.err)
     a, b = o.train, o.test
+    if a is None or b is None:
+        return "saved-files-unreadable-by-the-harness"
     extra = sorted(set(e[0] for e in o.log if e[0].startswith("other:")))
     if extra:       # a draw the model does not know about: the tie is broken, whatever the files look like
         return "unmodelled-generator-calls " + ",".join(extra)
@@ -354,10 +432,43 @@ def oracles(res, case, o, prop):
         return
     p, raw, s = case["params"], case["raw"], o.inp
     tr, te = o.train, o.test
+    if tr is None or te is None:      # layout unknown and not loadable (zero-row file): tie only, see run_stream
+        return
     fail = lambda what, obs, req: res.fail(what, case, obs, req, signature="%s:pipeline:%s" % (prop, what))
     keep = reference_filter(raw)
     filtered = exps(s, [i for i in range(s.size) if keep[i]])
     both = exps(tr) + exps(te)
+    rcv = o.received
+    # ---- what the core RECEIVED from the glue (item 18)
+    if prop == "C13" and "filtered" in rcv and Counter(rcv["filtered"]["exps"]) != Counter(filtered):
+        # the combination-filter clause on what `main()` hands to every later stage (multi-dose single agents included)
+        fail("the screen main() goes on with is not the input filtered to treatments that occur in a full combination",
+             {"kept": len(rcv["filtered"]["exps"])}, {"should_keep": len(filtered)})
+    if prop == "C11" and "loaded" in rcv and Counter(rcv["loaded"]["exps"]) != Counter(exps(s)):
+        fail("the screen main() loaded does not hold the experiments of the input file", {"n": len(rcv["loaded"]["exps"])}, {"n": int(s.size)})
+    for stage in ("init", "gen", "sm", "holdout"):
+        r_ = rcv.get(stage)
+        if r_ is None or "error" in r_:
+            continue
+        if not r_["rng_is_the_one_generator"]:      # not a clause of the text: tie
+            P.tie(res, prop, case, "stage %s did not receive the generator built from --seed" % stage, None)
+        if prop == "C11" and r_["screen"] is not None and "filtered" in rcv and not P.sub_multiset(r_["screen"]["exps"], rcv["filtered"]["exps"]):
+            fail("stage %s received experiments that are not in the filtered screen" % stage, {"n": len(r_["screen"]["exps"])}, None)
+    if prop == "C11" and rcv.get("holdout") and "error" not in rcv["holdout"] and rcv["holdout"]["screen"] is not None:
+        # the hold-out must be handed the whole smoothed screen (observed part included): the files are its partition
+        if Counter(both) != Counter(rcv["holdout"]["screen"]["exps"]):
+            fail("training + test files are not a partition of the screen handed to the hold-out", {"n": len(both)}, {"n": len(rcv["holdout"]["screen"]["exps"])})
+        f_rcv = rcv["holdout"].get("fraction")
+        f_want = 0.1 if p["fraction"] is None else p["fraction"]
+        if f_rcv is not None and float(f_rcv) != float(f_want):
+            P.tie(res, prop, case, "--holdout-fraction did not reach the hold-out", [f_rcv, f_want])
+    for stage, key in (("gen", "gen"), ("sm", "sm")):
+        r_ = rcv.get(stage)
+        if r_ and "error" not in r_ and p[key] is not None:
+            want = {(SM_PARAM[p[key]["op"]] if k_ == "k" else CLI_PARAM.get(k_, k_)): v for k_, v in p[key]["params"].items() if k_ != "force"}
+            got = {k_: r_["params"].get(k_) for k_ in want}
+            if got != want:
+                P.tie(res, prop, case, "--plate-%s-param did not reach the plugin instance" % ("generator" if key == "gen" else "smoother"), [got, want])
     if prop == "C11":
         # Prepare_conserves.  WHICH rows the combination filter keeps is C13's clause, not C11's: C11 judges conservation relative to
         # what the implementation's own filter returns (generators keep everything, smoothers a sub-collection, the hold-out partitions)
@@ -446,6 +557,9 @@ def run_stream(ctx, res, prop, lines, expect, cases):
             case["stale_outputs"] = True
         todo.append(case)
     todo.append(wide_case(rng))
+    for k, case in enumerate(todo):
+        if k % 6 == 2 or k == len(todo) - 1:
+            case["verbose"] = True
     for case in todo:
         o = execute(case)
         res.evaluations += 1
@@ -457,7 +571,20 @@ def run_stream(ctx, res, prop, lines, expect, cases):
             res.count("parent-error")
             continue
         res.count("pipeline.outcome." + ("error:" + type(o.err).__name__ if o.err is not None else "returned"))
+        if o.layout_issues:
+            res.count("layout.unexpected")
+            P.tie(res, prop, case, "the harness's raw h5py access did not find the storage layout it knows", o.layout_issues[:2])
         oracles(res, case, o, prop)
+        res.count("class.entry-point.prepare_retrospective_simulation: real main(), oracles on what the stages received and on the files")
+        if case.get("verbose"):
+            res.count("class.verbose-logging: pipeline case under verbose_logging() + --verbose, compared with the quiet run")
+            quiet = dict(case)
+            quiet.pop("verbose")
+            oq = execute(quiet)
+            if impl_canon(quiet, oq) != impl_canon(case, o) or repr(oq.log) != repr(o.log) or oq.pops != o.pops:
+                P.tie(res, prop, case, "the run under --verbose differs from the quiet run (files, draw trace or heap trace)", None)
+        if o.err is None and any(x != x or x in (float("inf"), float("-inf")) for x in case["raw"]["obs"]):
+            res.count("class.load-path: input file with NaN / +-inf observation values")
         if o.err is None:
             if case.get("stale_outputs"):
                 res.count("class.instalments: output paths already hold another screen of the same shape")
@@ -465,13 +592,13 @@ def run_stream(ctx, res, prop, lines, expect, cases):
                 res.count("class.int-width: >= 257 rows / >= 128 plates / >= 128 treatment ids through load_h5 -> main -> save_h5")
             if p["fraction"] is None or p["fraction"] in (0.05, 0.25):
                 res.count("class.default-budget: --holdout-fraction omitted (default 0.1) or just below / above it")
-            if o.test.size > 0 and o.train.size > 0:
+            if o.test is not None and o.train is not None and o.test.size > 0 and o.train.size > 0:
                 res.nontrivial.add(("pipeline", common.short_hash(case)))
             if p["init"] is not None and p["sm"] is None:
                 res.count("clause.pipeline: initial plate must cover (initial generator, no smoother)")
             if p["gen"] is not None and p["gen"]["op"] != "gen-perm":
                 res.count("clause.pipeline: single-sample unobserved plates (segregating / pairwise generator)")
-            if o.test.size >= 2:
+            if o.test is not None and o.test.size >= 2:
                 res.count("clause.pipeline: test screen with >= 2 experiments")
         lines.append(driver_line(case, o))
         expect.append(impl_canon(case, o))
